@@ -26,6 +26,9 @@ def main():
         r = res[mid]
         if mid.startswith("SELF-"):
             continue
+        if r.get("not_a_violation"):
+            rows.append(f"| {mid} | {title(mid)} | n/a | not a violation of the property as stated (see seeded/{mid}/meta.json) |")
+            continue
         if r.get("neutralized_by"):
             rows.append(f"| {mid} | {title(mid)} | n/a | no longer a behavioural change: {r['neutralized_by'][:70]}... |")
             continue
